@@ -1,1 +1,47 @@
-// harnesses: util
+// harnesses over /repo/src/util.rs  (C18 text codec, C08 MsgBuffer window)
+
+/// the inductive step of to_base62: multiply the little-endian base-62 digit string (<= 6 digits here) by 16 and
+/// add m < 16: the new digit string denotes 16*old + m, every digit stays < 62 (so the function's own
+/// `assert!(d < 62)` cannot fire), the length grows by at most one and the form stays canonical
+#[cfg_attr(kani, kani::proof, kani::unwind(9))]
+pub fn c18_add_mult_16_step() {
+    let digits: [u8; 6] = kani::any();
+    let len: usize = kani::any();
+    let m: u8 = kani::any();
+    kani::assume(len <= 6 && m < 16);
+    let mut buf = [0u8; 8];
+    let mut val: u64 = 0;
+    let mut pw: u64 = 1;
+    let mut i = 0;
+    while i < 6 {
+        if i < len {
+            kani::assume(digits[i] < 62);
+            buf[i] = digits[i];
+            val += digits[i] as u64 * pw;
+            pw *= 62;
+        }
+        i += 1;
+    }
+    if len > 0 {
+        kani::assume(digits[len - 1] != 0);
+    }
+    let newlen = base62_add_mult_16(&mut buf, len, m);
+    assert!(newlen >= len && newlen <= len + 1);
+    let mut val2: u64 = 0;
+    let mut pw: u64 = 1;
+    let mut i = 0;
+    while i < 7 {
+        if i < newlen {
+            assert!(buf[i] < 62);
+            val2 += buf[i] as u64 * pw;
+            pw *= 62;
+        }
+        i += 1;
+    }
+    assert!(val2 == val * 16 + m as u64);
+    if newlen > 0 {
+        assert!(buf[newlen - 1] != 0 || val2 == 0);
+    }
+    witness!();
+}
+
